@@ -921,6 +921,69 @@ std::string runPauseMeta(const Scenario &s, CaseInfo &info) {
   return err;
 }
 
+
+// ------------------------------------------------------------------------------------------------ sub `executor`
+// ActionExecutor is not part of the statement (DESIGN.md C17 Lim.): smoke test only.  One op per loop pass on an executor
+// with Dummy / Succ / Fail actions; ASan plus three light invariants taken from action_executor.h: an id is reported
+// started at most once and finished at most once (started first), and at most one appended action is running at a time.
+enum { X_ADD, X_FIN, X_CANCEL, X_CANCELCUR, X_CANCELALL, X_IDLE, X_NOPS };
+struct XItem { int id; Action *act; int kind; bool alive; int started = 0, finished = 0; };
+struct XCtx { std::vector<XItem> items; };
+template <class Base> struct XProbe : Base {
+  XCtx *ctx_; size_t slot_;
+  XProbe(XCtx *c, size_t slot, tbox::event::Loop &l) : Base(l), ctx_(c), slot_(slot) {}
+  ~XProbe() override { ctx_->items[slot_].alive = false; }
+};
+std::string runExecutor(const Scenario &s, CaseInfo &info) {
+  using namespace tbox::flow;
+  Env E; XCtx C; std::string err; int preempt = 0, cancels = 0;
+  {
+    ActionExecutor exec;
+    auto find = [&C](int id) -> XItem * { for (auto &it : C.items) if (it.id == id) return &it; return nullptr; };
+    exec.setActionStartedCallback([&](int id) { if (auto *it = find(id)) { if (++it->started > 1 && err.empty()) err = "action id " + std::to_string(id) + " reported started twice"; } });
+    exec.setActionFinishedCallback([&](int id) { if (auto *it = find(id)) { if (++it->finished > 1 && err.empty()) err = "action id " + std::to_string(id) + " reported finished twice"; } });
+    C.items.reserve(64);
+    size_t pc = 0;
+    vloop::drive(E.loop.get(), [&](int) -> bool {
+      if (!err.empty() || pc >= s.ops.size() || pc >= 60) return false;
+      const Op &op = s.ops[pc++];
+      std::vector<XItem *> live; for (auto &it : C.items) if (it.alive) live.push_back(&it);
+      switch (op.code) {
+        case X_ADD: if (C.items.size() < 40) {
+          int kind = (int)op.in(0, 0, 2), prio = (int)op.in(1, 0, 2); size_t slot = C.items.size();
+          C.items.push_back(XItem{-1, nullptr, kind, true});
+          Action *a = kind == 0 ? (Action *)new XProbe<DummyAction>(&C, slot, *E.loop) : kind == 1 ? (Action *)new XProbe<SuccAction>(&C, slot, *E.loop) : (Action *)new XProbe<FailAction>(&C, slot, *E.loop);
+          C.items[slot].act = a;
+          int running = 0; for (auto *it : live) if (it->act->state() == Action::State::kRunning) ++running;
+          C.items[slot].id = (int)slot + 1;   // ids come from a counter (the started callback runs inside append())
+          // the id is needed by the started callback, which runs inside append(): ids are documented to be allocated by a counter
+          int id = exec.append(a, prio);
+          C.items[slot].id = id;
+          if (running && C.items[slot].alive && a->state() != Action::State::kIdle) ++preempt;
+          break; }
+        case X_FIN: if (!live.empty()) { XItem *it = live[op.in(0, 0, (int64_t)live.size() - 1)];
+          if (it->kind == 0 && it->act->state() == Action::State::kRunning) static_cast<DummyAction *>(it->act)->emitFinish(op.in(1, 0, 1) != 0); }
+          break;
+        case X_CANCEL: if (!live.empty()) { XItem *it = live[op.in(0, 0, (int64_t)live.size() - 1)]; if (it->id > 0) { exec.cancel(it->id); ++cancels; } } break;
+        case X_CANCELCUR: exec.cancelCurrent(); ++cancels; break;
+        case X_CANCELALL: exec.cancelAll(); ++cancels; break;
+        default: break;
+      }
+      int running = 0; for (auto &it : C.items) if (it.alive && it.act->state() == Action::State::kRunning) ++running;
+      if (running > 1 && err.empty()) err = "op " + std::to_string(pc - 1) + ": " + std::to_string(running) + " appended actions are running at the same time";
+      for (auto &it : C.items) if (it.finished > it.started + (it.started == 0 ? 1 : 0) && err.empty()) err = "finished callback count exceeds started";
+      return true;
+    });
+    exec.cancelAll();
+    vloop::passes(E.loop.get(), 3);
+  }
+  E.settle();
+  for (auto &it : C.items) if (it.alive && err.empty()) err = "an appended action was neither deleted by the executor on finish/cancel nor by its destructor";
+  info.cls_if(preempt > 0, "higher_priority_preempts"); info.cls_if(cancels > 0, "cancel_used"); info.cls_if(C.items.size() >= 5, "actions>=5");
+  info.nontrivial = preempt > 0 && cancels > 0;
+  return err;
+}
+
 // ------------------------------------------------------------------------------------------------------ generators
 #ifndef VERIF_ENGINE_FUZZ
 struct Rng {
@@ -1116,4 +1179,19 @@ SubDef defPause = [] {
   return d;
 }();
 VERIF_REGISTER(&defPause);
+SubDef defExec = [] {
+  SubDef d; d.name = "executor";
+  d.op_names = {"add", "fin", "cancel", "cancelcur", "cancelall", "idle"}; d.op_arity = {2, 2, 1, 0, 0, 0};
+  d.nt_rule = "an action appended with a higher priority pre-empted a running one and some cancel call was made";
+  d.run = runExecutor;
+#ifndef VERIF_ENGINE_FUZZ
+  d.gen = [] {
+    auto opg = rc::gen::weightedOneOf<Op>({{8, mkop(X_ADD, {range(0, 2), range(0, 2)})}, {6, mkop(X_FIN, {range(0, 9), range(0, 1)})},
+      {2, mkop(X_CANCEL, {range(0, 9)})}, {1, mkop(X_CANCELCUR, {})}, {1, mkop(X_CANCELALL, {})}, {3, mkop(X_IDLE, {})}});
+    return rc::gen::map(opsOf(opg), [](std::vector<Op> v) { Scenario s; s.ops = std::move(v); return s; });
+  };
+#endif
+  return d;
+}();
+VERIF_REGISTER(&defExec);
 }  // namespace
